@@ -457,7 +457,12 @@ def run_check(pid, tier, seed, replay=None):
         "wall_s": round(time.time() - t0, 2),
         "violations": len({k for (k, _, _) in unlisted}) + (1 if (tie_broken and not unlisted) else 0),
     }
-    write_json(os.path.join(VERIF, "evidence", f"{pid}.json"), ev)
+    if os.path.realpath(REPO) == "/repo":
+        write_json(os.path.join(VERIF, "evidence", f"{pid}.json"), ev)
+    else:
+        # a run against another tree (VERIF_REPO: seeded change, builder worktree) is not evidence about /repo
+        ev["repo"] = REPO
+        write_json(os.path.join(VERIF, "replays", f"evidence_{pid}_other_tree.json"), ev)
     for line in lines:
         print(line)
     print(f"[{pid}] tier={tier} seed={seed} theorems={discharged}/{n_obl} cases={ctx.evaluations} "
